@@ -4,6 +4,9 @@ from __future__ import annotations
 import csv
 import math
 import os
+import pickle
+import sys
+import traceback
 import shutil
 import tempfile
 
@@ -15,13 +18,13 @@ from ..harness import Violation
 
 LEVEL = "exploration"
 RULE = (
-    "2-4 concurrent tasks on one shared Panoptica_Aggregator, each evaluate(subject) or make_statistic(), subject names "
+    "2-4 concurrent tasks on one shared Panoptica_Aggregator, each evaluate(subject), make_statistic() or a submission that raises (arrays of different shape, own name), subject names "
     "drawn from a pool of 3 so that collisions are frequent, 0-1 subjects recorded sequentially beforehand; tasks run as "
     "threads or as forked processes. Every lock acquire/release, file open/close, remove and the middle of every row "
     "write is a scheduling point of a cooperative scheduler that runs exactly one task at a time; the interleaving is "
     "the generated schedule (free choice lists of <=200 integers, or priority orders with 0-4 preemptions placed at "
     "arbitrary decision indices), so every run is deterministic and replayable. In addition ALL interleavings of "
-    "two tasks are enumerated depth-first over the scheduler's choice points for eight configurations (same name twice, two "
+    "two tasks are enumerated depth-first over the scheduler's choice points for nine configurations (same name twice, two "
     "names, evaluate + statistic on an empty and on a non-empty file, resumed file, two statistics; threads, and forks up "
     "to a leaf limit), and, in the thorough tier, all interleavings with at most two preemptions of three and four tasks. "
     "Lock-sharing probe: while the parent holds a module-level lock, a worker started through multiprocessing.Process / "
@@ -47,8 +50,14 @@ INPUTS = [
     ([0, 0, 0, 0, 0, 0, 0, 0], [1, 1, 1, 0, 0, 0, 0, 0]),
     ([2, 2, 0, 1, 1, 1, 1, 0], [2, 2, 2, 1, 1, 0, 0, 0]),
 ]
-NAMES = ["alpha", " beta-2 ", "subject_name", "pre0"]
+NAME_SETS = [["alpha", " beta-2 ", "subject_name", "pre0"], ["001", "002", "1e3", "0"], ["7", "07", "7.0", "1_000"]]
+NAMES = list(NAME_SETS[0])  # the set in use; chosen per case by use_names()
+
+
+def use_names(idx):
+    NAMES[:] = NAME_SETS[idx or 0]
 CFG = {"input": "UNMATCHED_INSTANCE", "matcher": {"kind": "naive", "metric": "IOU", "thr": 0.5, "m2o": False}, "imetrics": ["DSC", "IOU"], "gmetrics": ["DSC"]}
+BAD_NAME = "broken"
 _EXPECTED = {}
 
 
@@ -68,19 +77,22 @@ def case_strategy(draw, mode=None):
     n = draw(st.integers(2, 4))
     tasks = []
     for _ in range(n):
-        if draw(st.integers(0, 3)) == 0:
+        k = draw(st.integers(0, 9))
+        if k <= 1:
             tasks.append({"op": "stat"})
+        elif k == 2:
+            tasks.append({"op": "evaluate_bad"})  # a submission that raises (arrays of different shape), under its own name
         else:
             tasks.append({"op": "evaluate", "subject": draw(st.integers(0, 2))})
     pre = draw(st.integers(0, 1))
     # continue_file=False is only meaningful on a fresh file (it skips rebuilding the claims from the output)
     return {"mode": mode or "threads", "tasks": tasks, "pre": pre, "schedule": draw(schedule()),
-            "continue_file": True if pre else draw(st.booleans())}
+            "continue_file": True if pre else draw(st.booleans()), "subject_names": draw(st.sampled_from([0, 0, 1, 2]))}
 
 
 def searches(tier):
     n = BUDGET[tier]
-    return [("threads", case_strategy("threads"), n), ("forks", case_strategy("forks"), max(10, n // 6))]
+    return [("threads", case_strategy("threads"), n), ("forks", case_strategy("forks"), max(10, n // 6)), ("forks_pickled", case_strategy("forks_pickled"), max(10, n // 6))]
 
 
 E = lambda k: {"op": "evaluate", "subject": k}
@@ -93,8 +105,10 @@ DFS_CONFIGS = [
     ("evaluate+statistic_empty_file", "threads", [E(0), S], 0),
     ("same_name_x2_resumed_file", "threads", [E(2), E(2)], 1),
     ("statistic_x2", "threads", [S, S], 1),
+    ("raising_submission+evaluate", "threads", [{"op": "evaluate_bad"}, E(0)], 0),
     ("same_name_x2_forks", "forks", [E(0), E(0)], 0),
     ("evaluate+statistic_forks", "forks", [E(1), S], 1),
+    ("same_name_x2_pickled_copies", "forks_pickled", [E(0), E(0)], 0),
 ]
 
 
@@ -104,11 +118,11 @@ def enumerations(tier):
     limit = 2100 if tier == "quick" else 200000
     def g():
         for name, mode, tasks, pre in DFS_CONFIGS:
-            yield {"dfs": name, "mode": mode, "tasks": tasks, "pre": pre, "limit": limit if mode == "threads" else limit // 5}
+            yield {"dfs": name, "mode": mode, "tasks": tasks, "pre": pre, "limit": limit if mode == "threads" else limit // 5 if mode == "forks" else limit // 10}
         if tier == "quick":
             return
         # three and four tasks: all interleavings with at most two preemptions (thorough tier)
-        for name, tasks, pre in (("3_tasks_same_name", [E(0), E(0), E(0)], 0), ("3_tasks_mixed", [E(0), E(1), S], 1),
+        for name, tasks, pre in (("3_tasks_raising+same_name", [{"op": "evaluate_bad"}, E(0), E(0)], 0), ("3_tasks_same_name", [E(0), E(0), E(0)], 0), ("3_tasks_mixed", [E(0), E(1), S], 1),
                                  ("3_tasks_collision+stat", [E(1), E(1), S], 0), ("4_tasks_mixed", [E(0), E(0), E(2), S], 1)):
             yield {"dfs": name + "_preempt<=2", "mode": "threads", "tasks": tasks, "pre": pre, "limit": limit, "max_preempt": 2}
     def probes():
@@ -235,25 +249,29 @@ def arrays(k):
     return np.array(p, dtype=np.uint8), np.array(r, dtype=np.uint8)
 
 
-def expected_rows():
+def expected_rows(log_times=False):
     """Rows of a sequential run (one aggregator, one subject at a time), as strings."""
-    if not _EXPECTED:
+    key = tuple(NAMES) + (bool(log_times),)
+    if key in _EXPECTED:
+        return _EXPECTED[key]
+    exp = _EXPECTED[key] = {}
+    if True:
         from panoptica import Panoptica_Aggregator
 
         d = tempfile.mkdtemp(prefix="pv_c16e_")
         try:
             out = os.path.join(d, "seq.tsv")
-            agg = Panoptica_Aggregator(lib.evaluator(CFG), out)
+            agg = Panoptica_Aggregator(lib.evaluator(CFG), out, log_times=bool(log_times))
             for k, nm in enumerate(NAMES):
                 agg.evaluate(*arrays(k), nm)
             with sched.REAL_OPEN(out, newline="") as f:
                 rows = list(csv.reader(f, delimiter="\t"))
-            _EXPECTED["header"] = rows[0]
+            exp["header"] = rows[0]
             for r in rows[1:]:
-                _EXPECTED[r[0]] = r
+                exp[r[0]] = r
         finally:
             shutil.rmtree(d, ignore_errors=True)
-    return _EXPECTED
+    return exp
 
 
 def parse_file(path):
@@ -277,6 +295,7 @@ def check(case, stats):
         return check_probe(case, stats)
     from panoptica import Panoptica_Aggregator
 
+    use_names(case.get("subject_names"))
     with H.quiet():
         exp = expected_rows()
     header = exp["header"]
@@ -289,23 +308,77 @@ def check(case, stats):
     snapshots = {}
     try:
         out = os.path.join(d, "results.tsv")
-        with H.quiet():
-            agg = Panoptica_Aggregator(lib.evaluator(CFG), out, continue_file=case.get("continue_file", True))
-            submitted = set()
-            if case["pre"]:
-                agg.evaluate(*arrays(3), NAMES[3])
-                submitted.add(NAMES[3])
+        submitted = set()
+        if case["pre"]:
+            submitted.add(NAMES[3])
+
+        def construct():
+            with H.quiet():
+                a = Panoptica_Aggregator(lib.evaluator(CFG), out, continue_file=case.get("continue_file", True))
+                if case["pre"]:
+                    a.evaluate(*arrays(3), NAMES[3])
+            return a
+
+        if case["mode"] == "forks_pickled":
+            # long-lived workers: the aggregator is built by a process the workers are not forked from, and
+            # every task works on its own pickled copy, which is dropped when the task is done
+            blob_path = os.path.join(d, "_agg.pkl")
+            sys.stdout.flush()
+            pid = os.fork()
+            if pid == 0:
+                code = 0
+                try:
+                    import atexit
+
+                    atexit._clear()
+                    with sched.REAL_OPEN(blob_path, "wb") as f:
+                        pickle.dump(construct(), f)
+                except BaseException:  # noqa
+                    code = 1
+                    try:
+                        with sched.REAL_OPEN(blob_path + ".err", "w") as f:
+                            f.write(traceback.format_exc()[-1500:])
+                    except Exception:  # noqa
+                        pass
+                finally:
+                    os._exit(code)
+            _, status = os.waitpid(pid, 0)
+            if status != 0:
+                err = sched.REAL_OPEN(blob_path + ".err").read() if os.path.exists(blob_path + ".err") else f"status {status}"
+                raise Violation(f"constructing and pickling the aggregator in a separate process failed: {err}")
+            with sched.REAL_OPEN(blob_path, "rb") as f:
+                blob = f.read()
+
+            def with_agg(fn):
+                def run():
+                    import gc
+
+                    a = pickle.loads(blob)
+                    try:
+                        return fn(a)
+                    finally:
+                        del a
+                        gc.collect()
+                return run
+        else:
+            agg = construct()
+
+            def with_agg(fn):
+                return lambda: fn(agg)
 
         def make(t):
             if t["op"] == "evaluate":
                 k = t["subject"]
                 p, r = arrays(k)
-                return lambda: agg.evaluate(p, r, NAMES[k])
+                return with_agg(lambda a: a.evaluate(p, r, NAMES[k]))
+            if t["op"] == "evaluate_bad":
+                p, r = arrays(0)
+                return with_agg(lambda a: a.evaluate(p, r[:-1].copy(), BAD_NAME))
 
-            def stat():
-                s = agg.make_statistic()
+            def stat(a):
+                s = a.make_statistic()
                 return {sn: s.get_one_subject(sn) for sn in s.subjectnames}
-            return stat
+            return with_agg(stat)
 
         fns = {i: make(t) for i, t in enumerate(case["tasks"])}
         for t in case["tasks"]:
@@ -316,7 +389,7 @@ def check(case, stats):
             if kind == "open" and detail == "results.tsv:r":
                 snapshots[tid] = parse_file(out)
 
-        ctl = sched.Controller(case["schedule"], mode=case["mode"], on_grant=on_grant, scratch=d)
+        ctl = sched.Controller(case["schedule"], mode="forks" if case["mode"].startswith("forks") else "threads", on_grant=on_grant, scratch=d)
         try:
             results = ctl.run(fns)
         except sched.Deadlock as e:
@@ -342,7 +415,7 @@ def check(case, stats):
         ncoll = len([t for t in case["tasks"] if t["op"] == "evaluate"]) - len({t["subject"] for t in case["tasks"] if t["op"] == "evaluate"})
         stats.record(case, ctl.preempt_in_window >= 1,
                      [f"mode={case['mode']}", f"tasks={len(case['tasks'])}", f"schedule={case['schedule']['kind']}",
-                      "colliding_names" if ncoll else "distinct_names", "has_stat_task" if any(t["op"] == "stat" for t in case["tasks"]) else "evaluate_only"])
+                      "colliding_names" if ncoll else "distinct_names", "has_stat_task" if any(t["op"] == "stat" for t in case["tasks"]) else "evaluate_only"] + (["has_raising_submission"] if any(t["op"] == "evaluate_bad" for t in case["tasks"]) else []))
         stats.count("scheduling_points", len(ctl.trace))
         stats.count("context_switches", ctl.switches)
         stats.count("preemptions_in_critical_window", ctl.preempt_in_window)
@@ -361,6 +434,8 @@ def check(case, stats):
         for r in rows[1:]:
             if len(r) != len(header):
                 raise Violation(f"incomplete or torn row in the output file: {r}")
+            if r[0] == BAD_NAME:
+                continue  # what a raising submission leaves behind is not part of the statement
             if r[0] in seen:
                 raise Violation(f"subject {r[0]!r} recorded more than once")
             seen[r[0]] = r
@@ -383,6 +458,8 @@ def check(case, stats):
                 stats.count("stat_on_empty_file_raised")
                 continue
             for sn, groups in val.items():
+                if sn == BAD_NAME:
+                    continue
                 if sn not in exp or sn not in submitted:
                     raise Violation(f"statistic contains subject {sn!r} which was not submitted")
                 want = exp[sn]
